@@ -92,6 +92,10 @@ package keeper
 //@ ensures [receipts-kept] receiptsKept(old(xibc(ctx)), xibc(ctx))
 //@ ensures [acks-kept]     acksKept(old(xibc(ctx)), xibc(ctx))
 //@ ensures [valid]         err == nil && decodeOK(msg.Packet) ==> p.Sequence != 0 && p.SrcChain != p.DstChain && (p.DstChain == old(k.clientKeeper.GetChainName(ctx)) || p.SrcChain == old(k.clientKeeper.GetChainName(ctx)))
+// a receive never touches this chain's own send records: the packet was sent by another chain, so the commitment
+// family is left alone (the vestigial relay branch is unreachable)
+//@ ensures [not-own-packet] err == nil && decodeOK(msg.Packet) ==> p.SrcChain != old(k.clientKeeper.GetChainName(ctx))
+//@ ensures [commitments-untouched] err == nil && decodeOK(msg.Packet) ==> xibc(ctx) == kvset(old(xibc(ctx)), rk, []byte{1})
 //@ ensures [client-known]  err == nil && decodeOK(msg.Packet) ==> kvhas(old(xibc(ctx)), host.FullClientStateKey(p.SrcChain))
 //@ ensures [verified]      err == nil && decodeOK(msg.Packet) ==>
 //@       verifiedCommitment(cs, old(k.clientKeeper.ClientStore(ctx, p.SrcChain)), msg.ProofHeight,
